@@ -1,7 +1,7 @@
 """C05: balancer membership equals the server set after any join/leave history."""
 CLAIMED = True
 UNITS = []
-MIN_OBLIGATIONS = 1200
+MIN_OBLIGATIONS = 2500
 DESIGN_REF = 'DESIGN.md section 3, C05'
 TECHNIQUE = ('deductive verification: two-way membership invariant between the server dictionary and the heap (ghost map endpoint -> node), '
              'membership-delta postconditions on the heap primitives as a separate contract aspect, rely/guarantee at the init-done wait; z3 + cvc5')
@@ -12,7 +12,7 @@ LEVEL_TEXT = ('For the heap balancer the invariant HeapMem -- every node in the 
               '_FindNodeByEndpoint (first-match semantics of the generator expression, now proved instead of trusted), Heap.Swap/FixUp/FixDown and __Get/__Put (membership of every node unchanged). '
               'Duplicate joins, leaves of unknown members and re-joins are the case splits of these contracts (all inputs). Join/leave handlers are proved to act only after the init-done event is set, '
               'and _OpenImpl sets it only after every initially listed member is installed.')
-LEVEL_NOTE = ('This check covers the heap balancer; the same handlers are verified with self typed as the aperture balancer (active + idle halves) by the C06 check. Per-call and per-notification statement; "any history" follows by induction over notifications because '
+LEVEL_NOTE = ('Both balancers: the heap-balancer units, and the same handlers verified with self typed as the aperture balancer (active + idle halves; units *@ap and ApertureBalancerSink._AddSink/_RemoveSink/_TryExpandAperture/_ContractAperture, shared with C06). Per-call and per-notification statement; "any history" follows by induction over notifications because '
               'each handler is verified from the invariant to the invariant. Not machine-checked as one obligation: that dispatch-path functions run concurrently with a loading _OpenImpl never change the size '
               '(LoadBalancerSink.AsyncProcessRequest defers dispatch until the open result is ready: C12 unit). Trusted: _OpenInitialChannels / _OpenNode (start opens, no membership change), '
               'the server-set provider delivers notifications serially, properties dict copy/update dropped.')
